@@ -5,15 +5,38 @@ import (
 	"fmt"
 	"os"
 	"path/filepath"
+	"strconv"
+	"strings"
 	"sync"
 	"time"
 )
+
+func contains(xs []int, v int) bool {
+	for _, x := range xs {
+		if x == v {
+			return true
+		}
+	}
+	return false
+}
 
 // selftest proves that a run is a pure function of (seed, index, code): the
 // same run indices are executed in 30 fresh processes (10 each at GOMAXPROCS
 // 1, 4 and 16) and the digests of everything observable are compared.
 func (c *checkCtx) selftest() int {
 	idxs := []int{0, 1, 2, 3, 5, 7, 11, 13, 17, 19, 23, 29}
+	if s := os.Getenv("GCSIM_SELFTEST_IDXS"); s != "" {
+		idxs = nil
+		for _, f := range strings.Split(s, ",") {
+			if v, err := strconv.Atoi(strings.TrimSpace(f)); err == nil {
+				idxs = append(idxs, v)
+			}
+		}
+	}
+	total := c.Plan.Quick
+	if c.Tier == "thorough" {
+		total = c.Plan.Thorough
+	}
 	type key struct{ g, k int }
 	var mu sync.Mutex
 	digests := map[int]map[string]int{}
@@ -30,12 +53,22 @@ func (c *checkCtx) selftest() int {
 				defer func() { <-sem }()
 				job := c.baseJob()
 				job.Mode = "runs"
-				job.Indices = idxs
+				// Every process executes the same run indices, but in a rotated order and
+				// after three decoy runs of its own: a run must be a function of (seed,
+				// index) alone, whatever the process loaded and executed before it.
+				var mine []int
+				for d := 0; d < 3; d++ {
+					mine = append(mine, (101*k+37*d+13*g)%total)
+				}
+				for i := range idxs {
+					mine = append(mine, idxs[(i+k)%len(idxs)])
+				}
+				job.Indices = mine
 				tag := fmt.Sprintf("self-g%d-k%d", g, k)
 				if c.Plan.Race {
 					rj := c.baseJob()
 					rj.Mode = "ref"
-					rj.Indices = idxs
+					rj.Indices = mine
 					rj.RefPath = filepath.Join(c.Scratch, tag+".ref.json")
 					if ro := runWorker(c.Build.Worker, &rj, c.Scratch, tag+"-ref", g, 30*time.Minute); !ro.Finished {
 						mu.Lock()
@@ -53,10 +86,13 @@ func (c *checkCtx) selftest() int {
 					return
 				}
 				for _, r := range wo.Results {
+					if !contains(idxs, r.Index) {
+						continue // a decoy
+					}
 					if digests[r.Index] == nil {
 						digests[r.Index] = map[string]int{}
 					}
-					digests[r.Index][r.Verdict+":"+r.Digest]++
+					digests[r.Index][r.Verdict+":"+r.Digest+" "+strings.Join(r.DigestParts, " ")]++
 				}
 			}(g, k)
 		}
